@@ -14,6 +14,10 @@ CXX      := clang++
 CXXFLAGS := -std=c++17 -O1 -g -fno-omit-frame-pointer -fsanitize=address,undefined -fno-sanitize-recover=all \
             -fno-sanitize=nonnull-attribute,alignment -D_GLIBCXX_ASSERTIONS
 LDFLAGS  := -fsanitize=address,undefined
+else ifeq ($(VARIANT),cov)
+CXX      := clang++
+CXXFLAGS := -std=c++17 -O0 -g -fprofile-instr-generate -fcoverage-mapping -D_GLIBCXX_ASSERTIONS -DSIM_COVERAGE
+LDFLAGS  := -fprofile-instr-generate
 else
 CXX      := g++
 CXXFLAGS := -std=c++17 -O2 -g
